@@ -312,10 +312,48 @@ func extractTypeTables(M *GenModel, tm *TypeModel) *typeTables {
 	}
 	if fd := g.Funcs["("+sn+").JSONLDContext"]; fd != nil {
 		ast.Inspect(fd.Body, func(n ast.Node) bool {
-			if c, ok := n.(*ast.CallExpr); ok && len(c.Args) >= 1 {
-				if fv := thisField(info, c.Args[0]); fv != nil {
+			mark := func(e ast.Expr) {
+				if fv := thisField(info, e); fv != nil {
 					if pm := tm.Fields[fv]; pm != nil {
 						tt.context[pm.key()] = true
+					}
+				}
+			}
+			switch x := n.(type) {
+			case *ast.CallExpr:
+				// handed to the merge helper, or asked for its context directly
+				if len(x.Args) >= 1 {
+					mark(x.Args[0])
+				}
+				if sel, ok := x.Fun.(*ast.SelectorExpr); ok && sel.Sel.Name == "JSONLDContext" {
+					mark(sel.X)
+				}
+			case *ast.RangeStmt:
+				// for _, p := range []T{this.A, this.B, …} { … p.JSONLDContext() … }
+				cl, ok := x.X.(*ast.CompositeLit)
+				vid, ok2 := x.Value.(*ast.Ident)
+				if !ok || !ok2 {
+					return true
+				}
+				asked := false
+				ast.Inspect(x.Body, func(m ast.Node) bool {
+					if c, ok := m.(*ast.CallExpr); ok {
+						if sel, ok := c.Fun.(*ast.SelectorExpr); ok && sel.Sel.Name == "JSONLDContext" {
+							if id, ok := sel.X.(*ast.Ident); ok && info.ObjectOf(id) == info.ObjectOf(vid) {
+								asked = true
+							}
+						}
+						for _, a := range c.Args {
+							if id, ok := a.(*ast.Ident); ok && info.ObjectOf(id) == info.ObjectOf(vid) {
+								asked = true
+							}
+						}
+					}
+					return true
+				})
+				if asked {
+					for _, e := range cl.Elts {
+						mark(e)
 					}
 				}
 			}
